@@ -198,6 +198,26 @@ class Ctx:
             self.samples.append(x)
 
     # -------------------------------------------------------------- sharding
+    def apalache(self, module: str, init: str, inv: str, length: int, timeout: int = 900) -> None:
+        """Bounded / inductive check with Apalache (symbolic): raises SpecViolation when the invariant fails."""
+        run = self.work / f"apa-{len(self.tlc_runs)}"
+        run.mkdir(parents=True, exist_ok=True)
+        shutil.copy(VERIF / "spec" / f"{module}.tla", run / f"{module}.tla")
+        cmd = ["apalache-mc", "check", f"--init={init}", f"--inv={inv}", f"--length={length}",
+               f"--out-dir={run / 'out'}", f"{module}.tla"]
+        t0 = time.time()
+        try:
+            p = subprocess.run(cmd, cwd=run, capture_output=True, text=True, timeout=timeout)
+        except (subprocess.TimeoutExpired, FileNotFoundError) as e:
+            raise MachineryError(f"apalache: {type(e).__name__} on {module}")
+        out = p.stdout + p.stderr
+        self.tlc_runs.append({"tool": "apalache", "module": module, "init": init, "inv": inv, "length": length,
+                              "wall_s": round(time.time() - t0, 1), "ok": "EXITCODE: OK" in out})
+        if "EXITCODE: OK" not in out:
+            if "violat" in out.lower() or "EXITCODE: ERROR (12)" in out:
+                raise SpecViolation(f"apalache: {inv} fails from {init} within {length} step(s) in {module}")
+            raise MachineryError(f"apalache failed on {module}: {out[-400:]}")
+
     def pmap(self, func, items, chunks: int | None = None):
         """Apply func to each item in forked workers (the workers import xmlschema from /repo)."""
         items = list(items)
